@@ -817,4 +817,55 @@ example : removeInRect ⟨1 / 10, some (1 / 10), 1 / 8⟩ ⟨1 / 2, 1, 0, 0⟩ f
       [⟨[(0, 1), (5, 2)], none, none⟩, ⟨[(1, 12), (2, 3)], none, none⟩, ⟨[(4, 1)], none, none⟩]
     = [⟨[(4, 1)], none, none⟩] := by decide +kernel
 
+/-! ## the file as text: version header, column titles, lookup by title -/
+
+/-- **Save + import through the text of the file = save + import of the named columns.**  The titles
+    `export_kymotrackgroup_to_csv` writes (five fixed ones, the counts title iff a sampling width is
+    given, the minimum-duration title iff every track has one; position unit um / kbp / pixel), the
+    `# ` that `np.savetxt` puts in front of the first title, the `zip(header, columns)` dict of
+    `_read_txt` and the look-ups BY TITLE of `import_kymotrackgroup_from_csv` (mandatory fields, version
+    dependent minimum-duration title, first key containing `counts`) pick exactly the cells that were
+    written: for every group, sampling width and sampler the result is the one of `roundtrip`. -/
+theorem file_roundtrip (k : Kymo) (unit : Title) (hu : unit = uUm ∨ unit = uKbp ∨ unit = uPixel)
+    (sw : Option Nat) (smp : Nat → Int → Rat → Int) (fmt : Rat → Rat) (g : List Track) :
+    fileRoundtrip k unit sw smp fmt g = roundtrip k (sw.map smp) fmt g := by
+  unfold fileRoundtrip exportFile roundtrip
+  cases h : exportRows k (sw.map smp) fmt g with
+  | error e => rfl
+  | ok rows =>
+    simp only
+    have hs := exported_rows_shape k (sw.map smp) fmt g rows h
+    exact importFile_written k unit hu sw _ rows (by
+      intro r hr
+      have := hs r hr
+      simpa using this)
+
+/-- … so the round-trip theorem holds for the file as text: every non-empty group of non-empty tracks
+    (a single one-node track included) comes back with the same tracks in the same order. -/
+theorem file_roundtrip_spec (k : Kymo) (hpx : k.px ≠ 0) (unit : Title)
+    (hu : unit = uUm ∨ unit = uKbp ∨ unit = uPixel) (sw : Option Nat) (smp : Nat → Int → Rat → Int)
+    (fmt : Rat → Rat) (g : List Track) (hne : g ≠ []) (hpts : ∀ tr ∈ g, tr.pts ≠ []) :
+    fileRoundtrip k unit sw smp fmt g
+      = .ok (g.map (reimported (sw.map smp) fmt (g.all (·.minDur.isSome)))) := by
+  rw [file_roundtrip k unit hu, import_export_roundtrip k hpx _ fmt g hne hpts]
+
+example : fileRoundtrip ⟨3 / 5, some (1 / 10), 1 / 8⟩ uKbp (some 1) (fun w => sumSignal [[1, 2, 3], [4, 5, 6]] w (1 / 2)) fmt6e
+      [⟨[(0, 1 / 2), (1, 3 / 2)], some (1 / 4), none⟩, ⟨[(1, 0)], some 0, none⟩]
+    = .ok [⟨[(0, 1 / 2), (1, 3 / 2)], some (1 / 4), some [6, 11]⟩, ⟨[(1, 0)], some 0, some [9]⟩] := by
+  decide +kernel
+
+/-- the header of the single-node file of finding F4 (test: one concrete file) -/
+example : exportFile ⟨1 / 10, some (1 / 10), 1 / 8⟩ uUm none (fun _ _ _ => 0) fmt6e [⟨[(3, 3 / 2)], none, none⟩]
+    = .ok ⟨some 4, [tIdx, tTimePx, tCoordPx, tTimeSec, tPosition uUm], [[0, 3, 3 / 2, 3 / 8, 3 / 20]]⟩ := by
+  decide +kernel
+
+/-- a version-3 file keeps its minimum length under `minimum_length (-)`; the same column under the
+    version-4 title is not read (test: two concrete files) -/
+example : importFile ⟨1 / 10, some (1 / 10), 1 / 8⟩ ⟨some 3, [tIdx, tTimePx, tCoordPx, tMinLenV3], [[0, 3, 3 / 2, 2]]⟩
+      = .ok [⟨[(3, 3 / 2)], some 2, none⟩]
+    ∧ importFile ⟨1 / 10, some (1 / 10), 1 / 8⟩ ⟨some 3, [tIdx, tTimePx, tCoordPx, tMinDur], [[0, 3, 3 / 2, 2]]⟩
+      = .ok [⟨[(3, 3 / 2)], none, none⟩]
+    ∧ importFile ⟨1 / 10, some (1 / 10), 1 / 8⟩ ⟨some 4, [tTimePx, tIdx, tCoordPx], [[0, 3, 3 / 2]]⟩ = .error .io := by
+  decide +kernel
+
 end Verif.C17
